@@ -316,6 +316,12 @@ pub fn c19(ctx: &mut Ctx, tier: &str, r: &mut Rng, js: &[Value], _reqs: &[String
         ("latitude NaN", with(&|a| a[1] = "--latitude=NaN".into())),
         ("longitude inf", with(&|a| a[2] = "--longitude=inf".into())),
         ("gmt abc", with(&|a| a[0] = "--gmt=abc".into())),
+        ("gmt 12:30", with(&|a| a[0] = "--gmt=12:30".into())),
+        ("gmt -12:45", with(&|a| a[0] = "--gmt=-12:45".into())),
+        ("gmt 5:30 (not a number)", with(&|a| a[0] = "--gmt=5:30".into())),
+        ("latitude 45N", with(&|a| a[1] = "--latitude=45N".into())),
+        ("longitude 12,5", with(&|a| a[2] = "--longitude=12,5".into())),
+        ("elevation 100m", with(&|a| a[3] = "--elevation=100m".into())),
         ("latitude empty", with(&|a| a[1] = "--latitude=".into())),
         ("start date 2023-02-30", with(&|a| a[7] = "2023-02-30".into())),
         ("end date 2023-13-01", with(&|a| a[9] = "2023-13-01".into())),
